@@ -256,3 +256,12 @@ package ckks
 //@   ensures implies(isnil(err), len(opOut.Value) == 2)
 //@   ensures implies(isnil(err), val(opOut.Value[0]) == old(val(op0.Value[0])) * old(val(op1.Value[0])) + uf_gp0(c2, g))
 //@   ensures implies(isnil(err), val(opOut.Value[1]) == old(val(op0.Value[0])) * old(val(op1.Value[1])) + old(val(op0.Value[1])) * old(val(op1.Value[0])) + uf_gp1(c2, g))
+
+// ---- operand degree too high: a product whose operands have total degree 3 or more is refused with an error
+//@ afunc Evaluator.Mul#toohigh
+//@   property C06
+//@   dyn op1 *rlwe.Ciphertext
+//@   case len(op0.Value) == 3 && len(op1.Value) == 2 && len(opOut.Value) == 3
+//@   case len(op0.Value) == 2 && len(op1.Value) == 3 && len(opOut.Value) == 3
+//@   case len(op0.Value) == 3 && len(op1.Value) == 3 && len(opOut.Value) == 3
+//@   ensures !isnil(err)
